@@ -76,6 +76,7 @@ class Model:
         self.children = {}                             # cid -> dict(scope, name)
         self.ifaces = {}                               # iid -> dict(scope, name, s2s=[wid], k2s=[wid], n_s2s=[name], n_k2s=[name])
         self.used = set()                              # wids that were ever attached to a port of some block
+        self.dyn_attached = set()                      # AbstractLogic classes that got their behaviour at class level
 
     # ---- helpers
     def _name_taken(self, sid, name):
@@ -148,13 +149,27 @@ class Model:
         self.wire_names[op['sid']] = {}
         return False, path
 
+    def _leaf_prim(self, op):
+        """is the object a primitive (has propagate/clock) at the moment its ports are declared?  For an AbstractLogic block
+        ('Dyn') that depends on when and where the behaviour was attached"""
+        if op['cls'] != 'Dyn':
+            return op['cls'] not in STRUCT_CLS
+        d = op['dyn']
+        if d['mode'] == 'class_attach':
+            self.dyn_attached.add(d['klass'])
+        return d['mode'] in ('inst_before', 'class_attach') or d['klass'] in self.dyn_attached
+
     def op_leaf(self, op, path):
         for wid in op['ins'] + op['outs'] + op.get('inouts', []):
             if self.wires[wid]['kind'] != 'wire':
                 return None, None
-        if self._new_child(op['scope'], op['name'], op['cid'], op['cls'] not in STRUCT_CLS, op['ins'], op['outs']):
-            return True, path
+        if op['name'] in self.child_names[op['scope']]:
+            return True, path           # refused before anything else happens (no behaviour gets attached either)
+        prim = self._leaf_prim(op)
+        self._new_child(op['scope'], op['name'], op['cid'], prim, op['ins'], op['outs'])
         self.used.update(op['ins'] + op['outs'] + op.get('inouts', []))
+        if not prim and op['cls'] not in STRUCT_CLS:
+            return False, path          # a plain container with ports: nothing registers as sink or source
         r = self._drive(op['outs'] + op.get('inouts', []), op['cid'])
         if r == 'unjudged':
             return None, None
@@ -379,6 +394,8 @@ class Exec:
         o = [self.wires[x] for x in op['outs']]
         io = [self.wires[x] for x in op.get('inouts', [])]
         cls = op['cls']
+        if cls == 'Dyn':
+            return self._dyn_leaf(op, s, i, o, io)
         if cls == 'HLeaf':
             c = classes()['HLeaf'](s, op['name'], i, o, io)
         elif cls == 'Constant':
@@ -396,6 +413,40 @@ class Exec:
                 self.drv[wid] = port            # the leaf's own port object must be, and stay, the source
             else:
                 self.drv[wid] = self._inside(self.wires[wid].getSource(), c, op['cls'])
+
+    def _dyn_leaf(self, op, s, i, o, io):
+        """py4hw.AbstractLogic(class_name) object whose propagate()/clock() is attached afterwards: to the instance
+        (types.MethodType, as emulation/verilatorwrapping.py does) before or after its ports, or to the class"""
+        import types
+        d = op['dyn']
+        if not hasattr(self, 'dyn'):
+            self.dyn = {}
+        if op['name'] in s.children:
+            K = self.dyn.get(d['klass']) or self.py4hw.AbstractLogic(d['klass'])
+            return K(s, op['name'])         # raises: duplicate child name
+        K = self.dyn.get(d['klass'])
+        if K is None:
+            K = self.dyn[d['klass']] = self.py4hw.AbstractLogic(d['klass'])
+
+        def behaviour(me):
+            pass
+        if d['mode'] == 'class_attach':
+            setattr(K, d['meth'], behaviour)
+        c = K(s, op['name'])
+        self.children[op['cid']] = c
+        if d['mode'] == 'inst_before':
+            setattr(c, d['meth'], types.MethodType(behaviour, c))
+        for k, w in enumerate(i):
+            c.addIn('i%d' % k, w)
+        for k, w in enumerate(o):
+            c.addOut('o%d' % k, w)
+        for k, w in enumerate(io):
+            c.addInOut('io%d' % k, w)
+        if d['mode'] == 'inst_after':
+            setattr(c, d['meth'], types.MethodType(behaviour, c))
+        if d['mode'] in ('inst_before', 'class_attach'):
+            for wid, port in zip(op['outs'] + op.get('inouts', []), list(c.outPorts) + list(c.inOutPorts)):
+                self.drv[wid] = port
 
     def _inside(self, port, block, what):
         q = port.parent if port is not None else None
